@@ -64,6 +64,7 @@ Lemma from_transformation_sample w X c t :
   usample (from_transformation w X) c t = chain_apply X (fun c' => usample w c' t) c.
 Proof.
   unfold from_transformation. destruct (cvd w) as [vals|] eqn:E; [|reflexivity].
+  destruct (chain_callk X (map fst vals)); [|reflexivity].
   rewrite mk_const_sample, dlook_map.
   rewrite (chain_apply_ext X (fun c' => usample w c' t) (dlook vals)) by (intros; apply cvd_sample; auto).
   destruct (cmem c (chain_out X (map fst vals))) eqn:M.
@@ -73,7 +74,7 @@ Qed.
 Lemma with_global_sample w X c t : usample (with_global w X) c t = chain_apply X (fun c' => usample w c' t) c.
 Proof. destruct X; [reflexivity|]. apply from_transformation_sample. Qed.
 Lemma with_global_dur w X : wdur (with_global w X) = wdur w.
-Proof. destruct X; [reflexivity|]. unfold with_global, from_transformation. destruct (cvd w); reflexivity. Qed.
+Proof. destruct X; [reflexivity|]. unfold with_global, from_transformation. destruct (cvd w); [destruct (chain_callk _ _)|]; reflexivity. Qed.
 
 (* ---- relation between the two compilations ---- *)
 Definition wrel (G : list trafo) (w w' : wf) : Prop :=
@@ -88,11 +89,11 @@ Definition tr_equiv (X Y G : list trafo) : Prop := forall f c, chain_apply X f c
 Lemma wreversed_sample w c t : usample (wreversed w) c t = usample w c (wdur w - t).
 Proof.
   destruct w as [d chs|ws|b n|b G|b]; try reflexivity.
-  - destruct chs as [|[k [v|es]] [|x r]]; try reflexivity. cbn. destruct (N.eqb c k); reflexivity.
+  - destruct chs as [|[k [v|es|fa fb]] [|x r]]; try reflexivity. cbn. destruct (N.eqb c k); reflexivity.
   - cbn [wreversed usample wdur]. f_equal. lia.
 Qed.
 Lemma wreversed_dur w : wdur (wreversed w) = wdur w.
-Proof. destruct w as [d chs|ws|b n|b G|b]; try reflexivity. destruct chs as [|[k [v|es]] [|x r]]; reflexivity. Qed.
+Proof. destruct w as [d chs|ws|b n|b G|b]; try reflexivity. destruct chs as [|[k [v|es|fa fb]] [|x r]]; reflexivity. Qed.
 
 Lemma Forall2_rev' {A B} (R : A -> B -> Prop) a b : Forall2 R a b -> Forall2 R (rev a) (rev b).
 Proof. induction 1; cbn; [constructor|]. apply Forall2_app; auto. Qed.
@@ -113,9 +114,9 @@ Lemma b_ch_push b m : b_ch (b_push b m) = b_ch b. Proof. reflexivity. Qed.
 Lemma b_ch_pop b : b_ch (b_pop b) = b_ch b. Proof. reflexivity. Qed.
 
 (* the statement proved by induction on the template, for a compile function F (internal or create) *)
-Definition grel (G : list trafo) (F : (chan -> chan) -> list trafo -> bst -> bst) (cm : chan -> chan) : Prop :=
-  forall X Y b b', tr_equiv X Y G ->
-    exists K K', b_ch (F cm X b) = b_ch b ++ K /\ b_ch (F cm Y b') = b_ch b' ++ K' /\ Forall2 (lrel G) K K'.
+Definition grel (G : list trafo) (F : (chan -> chan) -> (N -> N) -> list trafo -> bst -> bst) (cm : chan -> chan) : Prop :=
+  forall mm X Y b b', tr_equiv X Y G ->
+    exists K K', b_ch (F cm mm X b) = b_ch b ++ K /\ b_ch (F cm mm Y b') = b_ch b' ++ K' /\ Forall2 (lrel G) K K'.
 
 Lemma leaf_const_same w c t :
   usample (match cvd w with Some vals => mk_const (wdur w) vals | None => w end) c t = usample w c t.
@@ -130,10 +131,10 @@ Proof.
 Qed.
 
 Lemma create_grel S G p cm :
-  grel G (internal S p) cm -> grel G (fun cm X b => create S (internal S) p cm X b) cm.
+  grel G (internal S p) cm -> grel G (fun cm mm X b => create S (internal S) p cm mm X b) cm.
 Proof.
-  intros IH X Y b b' HE. unfold create. destruct (in_S S (pid p)); [|apply IH; auto].
-  unfold new_subprogram. destruct (b_program (internal S p cm [] b_empty)) as [prog|].
+  intros IH mm X Y b b' HE. unfold create. destruct (in_S S (pid p)); [|apply IH; auto].
+  unfold new_subprogram. destruct (b_program (internal S p cm mm [] b_empty)) as [prog|].
   - exists [Leaf (with_global (to_waveform prog) X)], [Leaf (with_global (to_waveform prog) Y)].
     rewrite !b_ch_append, !b_ch_measure. repeat split. constructor; [|constructor]. constructor. apply global_wrel; auto.
   - exists [], []. rewrite !app_nil_r. repeat split. constructor.
@@ -144,7 +145,7 @@ Section pt_induction.
   Hypothesis HAtom : forall i m d chs, P (PAtom i m d chs).
   Hypothesis HSeq : forall i m subs, Forall P subs -> P (PSeq i m subs).
   Hypothesis HRep : forall i m n b, P b -> P (PRep i m n b).
-  Hypothesis HMap : forall i r s, P s -> P (PMap i r s).
+  Hypothesis HMap : forall i r mr s, P s -> P (PMap i r mr s).
   Hypothesis HPar : forall i ov s, P s -> P (PPar i ov s).
   Hypothesis HArith : forall i op l sc s, P s -> P (PArith i op l sc s).
   Hypothesis HRev : forall i s, P s -> P (PRev i s).
@@ -154,7 +155,7 @@ Section pt_induction.
     | PSeq i m subs => HSeq i m subs ((fix go (l : list pt) : Forall P l :=
                           match l with [] => Forall_nil _ | x :: r => Forall_cons _ (pt_ind2 x) (go r) end) subs)
     | PRep i m n b => HRep i m n b (pt_ind2 b)
-    | PMap i r s => HMap i r s (pt_ind2 s)
+    | PMap i r mr s => HMap i r mr s (pt_ind2 s)
     | PPar i ov s => HPar i ov s (pt_ind2 s)
     | PArith i op l sc s => HArith i op l sc s (pt_ind2 s)
     | PRev i s => HRev i s (pt_ind2 s)
@@ -216,8 +217,8 @@ Proof. unfold par_keys. rewrite map_map. reflexivity. Qed.
 
 Lemma internal_grel S G : forall p cm, guard_par G cm p = true -> grel G (internal S p) cm.
 Proof.
-  intros p. induction p as [i m d chs|i m subs IH|i m n body IH|i ren s IH|i ov s IH|i op l sc s IH|i s IH] using pt_ind2;
-    intros cm Hg X Y b b' HE.
+  intros p. induction p as [i m d chs|i m subs IH|i m n body IH|i ren mren s IH|i ov s IH|i op l sc s IH|i s IH] using pt_ind2;
+    intros cm Hg mm X Y b b' HE.
   - (* atom *)
     cbn [internal]. destruct ((d <=? 0) || match chs with [] => true | _ => false end).
     + exists [], []. rewrite !app_nil_r. repeat split. constructor.
@@ -229,27 +230,27 @@ Proof.
   - (* sequence *)
     cbn [internal]. rewrite !b_ch_pop. cbn [guard_par] in Hg. rewrite forallb_forall in Hg.
     assert (Hfold : forall b1 b1',
-      exists K K', b_ch (fold_left (fun b0 s => create S (internal S) s cm X b0) subs b1) = b_ch b1 ++ K /\
-                   b_ch (fold_left (fun b0 s => create S (internal S) s cm Y b0) subs b1') = b_ch b1' ++ K' /\
+      exists K K', b_ch (fold_left (fun b0 s => create S (internal S) s cm mm X b0) subs b1) = b_ch b1 ++ K /\
+                   b_ch (fold_left (fun b0 s => create S (internal S) s cm mm Y b0) subs b1') = b_ch b1' ++ K' /\
                    Forall2 (lrel G) K K').
     { clear b b'. revert Hg. induction IH as [|s subs Hs _ IHsubs]; intros Hg b1 b1'; cbn [fold_left].
       - exists [], []. rewrite !app_nil_r. repeat split. constructor.
       - assert (Hs' : grel G (internal S s) cm) by (apply Hs; apply Hg; left; auto).
-        destruct (create_grel S G s cm Hs' X Y b1 b1' HE) as (K1 & K1' & E1 & E1' & R1).
-        destruct (IHsubs (fun x Hx => Hg x (or_intror Hx)) (create S (internal S) s cm X b1) (create S (internal S) s cm Y b1'))
+        destruct (create_grel S G s cm Hs' mm X Y b1 b1' HE) as (K1 & K1' & E1 & E1' & R1).
+        destruct (IHsubs (fun x Hx => Hg x (or_intror Hx)) (create S (internal S) s cm mm X b1) (create S (internal S) s cm mm Y b1'))
           as (K2 & K2' & E2 & E2' & R2).
         exists (K1 ++ K2), (K1' ++ K2'). rewrite E2, E2', E1, E1', <- !app_assoc. repeat split. apply Forall2_app; auto. }
-    destruct (Hfold (b_push b m) (b_push b' m)) as (K & K' & E & E' & R). exists K, K'. rewrite E, E'. repeat split; auto.
+    destruct (Hfold (b_push b (mwins mm m)) (b_push b' (mwins mm m))) as (K & K' & E & E' & R). exists K, K'. rewrite E, E'. repeat split; auto.
   - (* repetition *)
     cbn [internal]. destruct n as [|n']; [exists [], []; rewrite !app_nil_r; repeat split; constructor|]. cbv zeta.
     cbn [guard_par] in Hg.
-    destruct (create_grel S G body cm (IH cm Hg) X Y b_empty b_empty HE) as (K & K' & E & E' & R).
+    destruct (create_grel S G body cm (IH cm Hg) mm X Y b_empty b_empty HE) as (K & K' & E & E' & R).
     cbn [b_ch b_empty app] in E, E'. rewrite E, E'. destruct R as [|x x' K K' Rx R].
     + exists [], []. rewrite !app_nil_r. repeat split. constructor.
     + eexists [_], [_]. rewrite !b_ch_append, !b_ch_measure. repeat split.
       constructor; [|constructor]. constructor. constructor; auto.
   - (* mapping *)
-    cbn [internal]. cbn [guard_par] in Hg. exact (create_grel S G s _ (IH _ Hg) X Y b b' HE).
+    cbn [internal]. cbn [guard_par] in Hg. exact (create_grel S G s _ (IH _ Hg) _ X Y b b' HE).
   - (* parallel channel *)
     cbn [internal]. cbn [guard_par] in Hg. apply andb_true_iff in Hg as [H1 H2].
     apply (create_grel S G s cm (IH cm H2)). apply tr_equiv_par; auto. rewrite par_keys_fst; auto.
@@ -257,7 +258,7 @@ Proof.
     cbn [internal]. cbn [guard_par] in Hg. apply (create_grel S G s cm (IH cm Hg)). apply tr_equiv_prefix; auto.
   - (* time reversal *)
     cbn [internal]. cbv zeta. cbn [guard_par] in Hg.
-    destruct (IH cm Hg X Y b_empty b_empty HE) as (K & K' & E & E' & R). cbn [b_ch b_empty app] in E, E'.
+    destruct (IH cm Hg mm X Y b_empty b_empty HE) as (K & K' & E & E' & R). cbn [b_ch b_empty app] in E, E'.
     unfold b_program. rewrite E, E'. destruct R as [|x x' K K' Rx R].
     + exists [], []. rewrite !app_nil_r. repeat split. constructor.
     + eexists [_], [_]. rewrite !b_ch_append. repeat split.
@@ -310,7 +311,7 @@ Lemma global_transformation_thm : forall p S G, guard_C05_parallel_order G p = t
   end.
 Proof.
   intros p S G Hg. unfold compile.
-  destruct (create_grel S G p (fun c => c) (internal_grel S G p _ Hg) G [] b_empty b_empty (tr_equiv_root G))
+  destruct (create_grel S G p (fun c => c) (internal_grel S G p _ Hg) (fun n => n) G [] b_empty b_empty (tr_equiv_root G))
     as (K & K' & E & E' & R). cbn [b_ch b_empty app] in E, E'.
   unfold b_program. rewrite E, E'. destruct R as [|x x' K K' Rx R]; [exact I|].
   set (l := Node 1 _ (x :: K)). set (l' := Node 1 _ (x' :: K')).
